@@ -1039,10 +1039,14 @@ func txWrapperRule(c *core.Ctx, rule string) {
 			nilEdges := core.RelEdges(fn, core.IsValue(inner), isNilConst, token.EQL)
 			ok, n := true, 0
 			for _, rc := range core.ReturnCases(fn) {
-				if len(rc.Values) == 1 && isNilConst(rc.Values[0]) {
-					n++
+				if len(rc.Values) != 1 {
+					continue
+				}
+				n++
+				if isNilConst(rc.Values[0]) {
 					ok = ok && rc.ReachableOnlyVia(fn, nilEdges)
 				}
+				// any other value is the error itself (`return err` on both outcomes) or a wrapped form of it
 			}
 			c.Decide(ok && n > 0, rule, "db.(*Tx).Commit#failure-reported", fn.Pos(), "nil is returned only where the underlying Commit returned nil")
 		}
